@@ -334,6 +334,10 @@ class Req:
 def l163(nroutes):
     from sx.models import env_m
     env_m.set_clock(env_m.Clock(start=1.7e9))      # wall clock of the rate limiter: a realistic epoch time
+    # another router of the same process has its own routes: they are not this router's business
+    other = ws.Router()
+    other.registerRoutes([ws.Route('foreign', 'GET', TABLE_PATTERNS[0], (lambda req: ('foreign',))),
+                          ws.Route('foreign2', 'POST', TABLE_PATTERNS[-1], (lambda req: ('foreign',)))])
     router = ws.Router()
     routes = []
     parts_of = {p: parse_pattern(p) for p in TABLE_PATTERNS}
@@ -367,6 +371,7 @@ def l163(nroutes):
                 check(SxBool(z3.Not(z3.InRe(s, z_must(parts_of[r.pattern])))), 'no route returned => no route of that method matches')
         else:
             ep, matches = got
+            check(any(ep is r for r in known), 'the chosen route is one that was registered with this router')
             check(ep.method == method, 'chosen route has the request method')
             idx = cands.index(ep)
             for r in cands[:idx]:
@@ -405,6 +410,8 @@ def replay_l163(cfg, m):
     routes = []
     for i in range(cfg['nroutes']):
         routes.append(c.Route('r%d' % i, METHODS[ch('method%d' % i)], TABLE_PATTERNS[ch('route%d' % i)], None))
+    other = c.Router()
+    other.registerRoutes([c.Route('foreign', 'GET', TABLE_PATTERNS[0], None), c.Route('foreign2', 'POST', TABLE_PATTERNS[-1], None)])
     r = c.Router()
     method = ['GET', 'POST', 'PATCH'][ch('req_method')]
     path = m.get('path', '')
@@ -424,6 +431,8 @@ def replay_l163(cfg, m):
     else:
         r.registerRoutes(routes)
     got = r.getRoute(method, path)
+    if got is not None and not any(got[0] is x for x in routes):
+        return True, 'getRoute(%s, %r) returned %r, which was never registered with this router' % (method, path, got[0])
     parts_of = {p: parse_pattern(p) for p in TABLE_PATTERNS}
     cands = [x for x in routes if x.method == method]
     first_must = None
